@@ -874,7 +874,7 @@ def run_addr(ctx, case):
         "collective" if case["rmode"]["coll"] else "independent", "iget+wait" if case["rmode"]["nb"] else "blocking",
         ", peer reads" if case.get("swap") else "")
     pool = ctx.pool("plain", nprocs=1 if k == 1 else 2)
-    res, d = pool.run(s, keepdir=True, timeout=180)
+    res, d = pool.run(s, keepdir=True, timeout=60)
     try:
         P = []
         for r in range(k):
